@@ -21,7 +21,7 @@ ENGINES = {
     "C09": ["e1", "e4"], "C14": ["e1"],
     "C07": ["e3"], "C12": ["e3"], "C13": ["e3"],
     "C11": ["e4", "e3"], "C15": ["e4"], "C18": ["e4"],
-    "C01": ["e2"], "C10": ["e2"], "C20": ["e2"], "C19": ["e2c"],
+    "C01": ["e2"], "C10": ["e2"], "C20": ["e2", "e2c"], "C19": ["e2c"],
     "C16": ["e5"], "C17": ["e5", "e2", "e1"],
 }
 
